@@ -48,6 +48,10 @@ func ocspRep(cls int, src source) *ocspBehaviour {
 	if cls == 3 {
 		return ocspByName(ocspInconclusive[(src.cert+src.idx)%len(ocspInconclusive)])
 	}
+	if cls == 1 && (src.cert+src.idx)%2 == 1 {
+		// the class "revoked" is also represented by an answer whose Content-Type header carries a parameter
+		return ocspByName("revoked/issuer/content-type-with-a-parameter")
+	}
 	return ocspByName(ocspClassNames[cls])
 }
 
